@@ -893,6 +893,8 @@ impl Meta {
   unsafe fn clear<A: Allocator>(&self, arena: &A) {
     unsafe {
       let ptr = arena.raw_mut_ptr().add(self.ptr_offset as usize);
+      #[cfg(rarena_verif)]
+      crate::verif::on_zero(ptr as usize, self.ptr_size as usize);
       core::ptr::write_bytes(ptr, 0, self.ptr_size as usize);
     }
   }
